@@ -628,6 +628,27 @@ LEAN_ASSUMED = {
 }
 
 
+def _load_extra_aliases():
+    """lemmas/aliases_extra.json: axiom name -> Lean theorem names (L_* in Lemmas.lean, T_* in Theorems.lean) added in the last session, with scope notes"""
+    import json
+    import os
+    path = os.path.join(os.path.dirname(os.path.dirname(os.path.abspath(__file__))), "lemmas", "aliases_extra.json")
+    try:
+        d = json.load(open(path))
+    except (OSError, ValueError):
+        return {}
+    scopes = d.pop("_scopes", {})
+    for nm, ths in d.items():
+        if all(t.startswith("T_") for t in ths):
+            LEAN_ASSUMED.setdefault(nm, (list(ths), scopes.get(nm)))
+        else:
+            LEAN_ALIASES[nm] = list(ths)
+    return scopes
+
+
+LEAN_SCOPES = _load_extra_aliases()     # restatements that are narrower than the SMT axiom (square blocks only, exp only, up to reindexing, ...)
+
+
 def lean_checked():
     """names of the lemma axioms that have a Lean/Mathlib-checked restatement (recorded by tools/check_lemmas.sh; the file is committed, lean is not run by the checks)"""
     import json
@@ -668,7 +689,7 @@ def lemma_stats():
             txt += " [Lean-checked in lemmas/Theorems.lean: %s%s]" % (", ".join(th), "" if scope is None else "; scope: " + scope)
         assumed.append((nm, txt))
     return dict(total=len(LEMMAS), mathlib_named=ml, assumed=assumed,
-                definitional=len(LEMMAS) - ml - len(assumed), lean_checked=lc,
+                definitional=len(LEMMAS) - ml - len(assumed), lean_checked=lc, lean_scopes={k: v for k, v in LEAN_SCOPES.items() if k in set(lc)},
                 lean_record=None if rec is None else dict(lean=rec.get("lean"), theorems=len(rec.get("theorems", [])), source_sha256=rec.get("source_sha256")))
 
 
